@@ -116,10 +116,18 @@ def tree_source(root):
                     raise ValueError(c["t"])
                 ind += 1
             # innermost body
+            pad = int(task.get("pad", 0))
             if j + 1 < nfr:
-                src.add(ind, f"await t{tid}_f{j + 1}(W)")
+                if pad:
+                    # `pad` nested awaits (one recursive coroutine) between two frames of the task
+                    src.add(ind, f"await W.via({pad}, t{tid}_f{j + 1}, W)")
+                else:
+                    src.add(ind, f"await t{tid}_f{j + 1}(W)")
             elif task["block"] == "body":
-                if task["how"] == "sleep":
+                if pad and nfr == 1 and task["how"] in ("sleep", "event"):
+                    fn = "trio.sleep_forever" if task["how"] == "sleep" else "W.gate.wait"
+                    src.add(ind, f"await W.via({pad}, {fn})")
+                elif task["how"] == "sleep":
                     src.add(ind, "await trio.sleep_forever()")
                 elif task["how"] == "poll":
                     # runnable at a checkpoint, never blocked: seen parked in cancel_shielded_checkpoint
@@ -334,6 +342,12 @@ class World:
     def never(self):
         return None
 
+    async def via(self, n, fn, *args):
+        """n nested awaits above fn(*args)"""
+        if n > 0:
+            return await self.via(n - 1, fn, *args)
+        return await fn(*args)
+
     def tpark(self, tid):
         """body of a tree task parked in to_thread.run_sync: one function for all tasks"""
         self.seg_thread[("t", tid)] = (threading.current_thread(), sys._getframe(0))
@@ -545,15 +559,18 @@ class World:
                 escaped = repr(ex)
 
         problems = []
+        dirty = []
 
         def abs_stack(s, path):
             if not isinstance(s, stackscope.Stack):
                 problems.append(f"{path}: child is {type(s).__name__}, not a Stack")
                 return {"root": ["H", UNKNOWN], "frames": []}
             if s.error is not None:
-                problems.append(f"{path}: Stack.error = {s.error!r}")
+                problems.append(f"{path}: Stack.error = {str(s.error)[:300]!r}")
+                dirty.append(path)
             if s.leaf is not None:
                 problems.append(f"{path}: Stack.leaf = {type(s.leaf).__name__}")
+                dirty.append(path)
             r = s.root
             if isinstance(r, threading.Thread):
                 root = ["H", 0 if r is self.start_obj else UNKNOWN]
@@ -591,7 +608,7 @@ class World:
             except Exception as ex:  # the oracle itself must not take the run down
                 oracle = ["fatal", "oracle crashed: " + repr(ex)]
         self.result = {"world": world, "stack": obs, "nurs": sorted(nurs_tab.items()),
-                       "kids": sorted(kids_tab.items()), "oracle": oracle,
+                       "kids": sorted(kids_tab.items()), "oracle": oracle, "clean": not dirty,
                        "nframes": len(fkeep)}
         del fkeep[:]
 
